@@ -337,6 +337,8 @@ def fw_update(draw, pic, max_len=200):
         st.lists(st.sampled_from(known + [99]) if known else st.sampled_from(NODE_POOL), min_size=1, max_size=3, unique=True),
     ))
     ftype, fver = draw(st.integers(0, 2)), draw(st.integers(0, 2))
+    if draw(st.integers(0, 11)) == 0:
+        return {"op": "fw", "nids": nids, "type": ftype, "ver": draw(st.integers(3, 9)), "image": None, "bad_path": draw(st.sampled_from(["missing", "garbage"]))}
     if pic.fw and draw(st.integers(0, 9)) < 5:
         ftype, fver = draw(st.sampled_from(pic.fw))  # re-issue an update for firmware already stored
     image = None
